@@ -246,3 +246,14 @@ func (g *StreamGen) Message(mi int, depth int) []byte {
 	}
 	return b
 }
+
+// ScalarRecord: tag + payload of a random value of kind k under field number num.
+func (g *StreamGen) ScalarRecord(num int, k vschema.Kind) []byte {
+	b := protowire.AppendTag(nil, protowire.Number(num), wireTypeOf(k))
+	return g.scalarPayload(b, k)
+}
+
+// ElemRecord: one record (tag + payload) for an element of field f appended to b.
+func (g *StreamGen) ElemRecord(b []byte, f *vschema.Field, depth int) []byte {
+	return g.elemRecord(b, f, depth)
+}
